@@ -6,6 +6,7 @@
 -/
 import MinLex.Model.Env
 import MinLex.Model.Alloc
+import MinLex.Model.ParseW
 open MinLex
 
 def hexVal (c : Char) : Nat :=
@@ -412,15 +413,115 @@ def runCase (E : Env) (line : String) : String :=
   | "" => ""
   | _ => if line.startsWith "#" then "" else s!"unknown-command {arg 0}"
 
-partial def loop (E : Env) (hin : IO.FS.Stream) (hout : IO.FS.Stream) : IO Unit := do
+
+-- ------------------------------------------------------------------ 32-bit-limb build (Model/BigintW.lean)
+def bigintCmdW (w : Nat) (E : Env) (t : List String) : String :=
+  let cap := W.capW w E.cfg.alloc
+  let T := W.genPowW w E.cfg.compact
+  let arg (i : Nat) : String := t.getD i ""
+  let ctor (s : String) (k : Big → String) : String :=
+    match vecTryFrom cap (parseLimbs s) with
+    | some v => k v
+    | none => "ctor-none"
+  let nat (x : Big) : Nat := W.toNatW w x
+  let Bw := W.Bw w
+  match arg 0 with
+  | "small_add" => ctor (arg 1) fun x => optBig (W.smallAdd w cap x (parseNat (arg 2))) ++ s!" | S {nat x + parseNat (arg 2)}"
+  | "small_add_from" => ctor (arg 1) fun x =>
+      optBig (W.smallAddFrom w cap x (parseNat (arg 2)) (parseNat (arg 3))) ++
+      (if parseNat (arg 3) ≤ x.length then s!" | S {nat x + parseNat (arg 2) * Bw ^ parseNat (arg 3)}" else "")
+  | "small_mul" => ctor (arg 1) fun x => optBig (W.smallMul w cap x (parseNat (arg 2))) ++ s!" | S {nat x * parseNat (arg 2)}"
+  | "large_add" => ctor (arg 1) fun x => optBig (W.largeAdd w cap x (parseLimbs (arg 2))) ++ s!" | S {nat x + nat (parseLimbs (arg 2))}"
+  | "large_add_from" => ctor (arg 1) fun x =>
+      optBig (W.largeAddFrom w cap x (parseLimbs (arg 2)) (parseNat (arg 3))) ++
+      s!" | S {nat x + nat (parseLimbs (arg 2)) * Bw ^ parseNat (arg 3)}"
+  | "long_mul" =>
+      let x := parseLimbs (arg 1); let y := parseLimbs (arg 2)
+      optBig (W.longMul w cap x y) ++ (if y.isEmpty then "" else s!" | S {nat x * nat y}")
+  | "large_mul" => ctor (arg 1) fun x =>
+      let y := parseLimbs (arg 2)
+      optBig (W.largeMul w cap x y) ++ (if y.isEmpty || x.isEmpty then "" else s!" | S {nat x * nat y}")
+  | "pow" => ctor (arg 1) fun x => optBig (W.pow w cap T x (parseNat (arg 2))) ++ s!" | S {nat x * 5 ^ parseNat (arg 2)}"
+  | "bpow" => ctor (arg 1) fun x =>
+      optBig (W.bigintPow w cap T x (parseNat (arg 2)) (parseNat (arg 3))) ++ s!" | S {nat x * (parseNat (arg 2)) ^ parseNat (arg 3)}"
+  | "shl" => ctor (arg 1) fun x => optBig (W.shl w cap x (parseNat (arg 2))) ++ s!" | S {nat x * 2 ^ parseNat (arg 2)}"
+  | "shl_bits" => ctor (arg 1) fun x => optBig (W.shlBits w cap x (parseNat (arg 2))) ++ s!" | S {nat x * 2 ^ parseNat (arg 2)}"
+  | "shl_limbs" => ctor (arg 1) fun x => optBig (shlLimbs cap x (parseNat (arg 2))) ++ s!" | S {nat x * Bw ^ parseNat (arg 2)}"
+  | "compare" =>
+      let x := parseLimbs (arg 1); let y := parseLimbs (arg 2)
+      ordStr (bigCompare x y) ++
+      (if isNormalized x && isNormalized y then " | S " ++ ordStr (Ord.compare (nat x) (nat y)) else "")
+  | "hi64" =>
+      let x := parseLimbs (arg 1)
+      let h := W.hi64 w x
+      s!"{h.1} {b01 h.2}" ++
+      (if isNormalized x && !x.isEmpty then
+        let n := nat x
+        let bl := Nat.log2 n + 1
+        if bl ≥ 64 then s!" | S {n / 2^(bl-64)} {b01 (n % 2^(bl-64) != 0)}" else s!" | S {n * 2^(64-bl)} 0"
+       else "")
+  | "bhi64" => ctor (arg 1) fun x => let h := W.hi64 w x; s!"{h.1} {b01 h.2} {W.bitLength w x}"
+  | "bit_length" =>
+      let x := parseLimbs (arg 1)
+      toString (W.bitLength w x) ++ (if isNormalized x then s!" | S {if nat x = 0 then 0 else Nat.log2 (nat x) + 1}" else "")
+  | "leading_zeros" => toString (W.leadingZeros w (parseLimbs (arg 1)))
+  | "normalize" => ctor (arg 1) fun x => fmtLimbs (normalize x) ++ s!" | S {nat x}"
+  | "is_normalized" => b01 (isNormalized (parseLimbs (arg 1)))
+  | "from_u64" => fmtLimbs (W.fromU64 w (parseNat (arg 1))) ++ s!" | S {parseNat (arg 1)}"
+  | "bfrom_u64" => fmtLimbs (W.fromU64 w (parseNat (arg 1))) ++ s!" | S {parseNat (arg 1)}"
+  | "scalar_add" => let r := W.scalarAdd w (parseNat (arg 1)) (parseNat (arg 2)); s!"{r.1} {b01 r.2}"
+  | "scalar_mul" => let r := W.scalarMul w (parseNat (arg 1)) (parseNat (arg 2)) (parseNat (arg 3)); s!"{r.1} {r.2}"
+  | "nonzero" => b01 (nonzero (parseLimbs (arg 1)) (parseNat (arg 2)))
+  | "u32_to_hi64_1" => let r := W.u32ToHi64_1 (parseNat (arg 1)); s!"{r.1} {b01 r.2}"
+  | "u32_to_hi64_2" => let r := W.u32ToHi64_2 (parseNat (arg 1)) (parseNat (arg 2)); s!"{r.1} {b01 r.2}"
+  | "u32_to_hi64_3" => let r := W.u32ToHi64_3 (parseNat (arg 1)) (parseNat (arg 2)) (parseNat (arg 3)); s!"{r.1} {b01 r.2}"
+  | "u64_to_hi64_1" => let r := u64ToHi64_1 (parseNat (arg 1)); s!"{r.1} {b01 r.2}"
+  | "u64_to_hi64_2" => let r := u64ToHi64_2 (parseNat (arg 1)) (parseNat (arg 2)); s!"{r.1} {b01 r.2}"
+  | "mulassign" => ctor (arg 1) fun x => ctor (arg 2) fun y =>
+      (match W.largeMul w cap x y with
+       | some z => fmtLimbs z
+       | none => "panic") ++ (if y.isEmpty || x.isEmpty then "" else s!" | S {nat x * nat y}")
+  | _ => "unknown-bigint-op"
+
+/-- commands of a `w`-bit-limb build; everything that does not touch the big integers is shared -/
+def runCaseW (w : Nat) (E : Env) (line : String) : String :=
+  let t := (line.splitOn " ").filter (· ≠ "")
+  let arg (i : Nat) : String := t.getD i ""
+  match arg 0 with
+  | "pf" =>
+    let F := fmtOf (arg 1)
+    let int := decodeBytes (arg 2)
+    let frac := decodeBytes (arg 3)
+    let e := parseInt (arg 4)
+    let m := match W.parseFloat w E F int frac e with
+      | .ok b => s!"v {hex b}"
+      | .panic => "panic"
+    if validB int frac e then m ++ s!" | S v {hex (specParse F.fmt int frac e)}" else m
+  | "sl" =>
+    let F := fmtOf (arg 1)
+    let n : Number := ⟨parseInt (arg 3), parseNat (arg 2), arg 4 == "1"⟩
+    optFp (W.slow w (W.capW w E.cfg.alloc) (W.genPowW w E.cfg.compact) F n ⟨parseNat (arg 5), parseInt (arg 6)⟩
+      (decodeBytes (arg 7)) (decodeBytes (arg 8)))
+  | "pm" =>
+    (match W.parseMantissa w (W.capW w E.cfg.alloc) (W.genPowW w E.cfg.compact) (decodeBytes (arg 1)) (decodeBytes (arg 2)) (parseNat (arg 3)) with
+     | none => "panic"
+     | some (r, c) => s!"{fmtLimbs r} {c}")
+  | "bg" => bigintCmdW w E (t.drop 1)
+  | "u32hi" => bigintCmdW w E (t.drop 1)
+  | _ => runCase E line
+
+partial def loop (w : Nat) (E : Env) (hin : IO.FS.Stream) (hout : IO.FS.Stream) : IO Unit := do
   let line ← hin.getLine
   if line.isEmpty then return ()
   let l := String.ofList (line.toList.filter (fun c => c != '\n' && c != '\r'))
-  hout.putStrLn (runCase E l)
-  loop E hin hout
+  hout.putStrLn (if w = 64 then runCase E l else runCaseW w E l)
+  loop w E hin hout
 
 def main (args : List String) : IO Unit := do
-  let cfg := cfgOfString (args.getD 0 "std")
+  -- `<cfg>` = 64-bit-limb build (every command); `<cfg>@32` = the 32-bit-limb build (Model/BigintW.lean)
+  let a := (args.getD 0 "std").splitOn "@"
+  let cfg := cfgOfString (a.getD 0 "std")
+  let w := if a.getD 1 "64" == "32" then 32 else 64
   let hin ← IO.getStdin
   let hout ← IO.getStdout
-  loop (genEnv cfg) hin hout
+  loop w (genEnv cfg) hin hout
